@@ -15,3 +15,4 @@ import Precis.Props.C07
 import Precis.Props.C01
 import Precis.Props.C08
 import Precis.Props.C17
+import Precis.Props.C16
